@@ -165,6 +165,7 @@ type c07Sess struct {
 	extra []*c07Remote
 	// the speaker described by the last OPEN (for the UPDATEs it sends)
 	remoteAS      int
+	lastOpen      string
 	twoByte       bool
 	inEstablished bool // reported state before the current event
 }
@@ -301,19 +302,44 @@ func (ss *c07Sess) send(rem *c07Remote, b []byte) {
 	_, _ = rem.mine.Write(b)
 }
 
-// c07OpenWire builds an OPEN from its wire-level AS fields: the 2-octet My-AS field and,
-// if hascap, a 4-octet-AS capability (code 65) carrying capas.
-func c07OpenWire(myas int, hascap bool, capas int, id string, hold int, version int) []byte {
-	caps := []bgp.ParameterCapabilityInterface{bgp.NewCapMultiProtocol(bgp.RF_IPv4_UC)}
-	if hascap {
-		caps = append(caps, bgp.NewCapFourOctetASNumber(uint32(capas)))
+// c07OpenLayout builds an OPEN from its wire-level AS fields: the 2-octet My-AS field and the
+// layout of its optional parameters: parameters separated by `|`; `u` a non-capability parameter
+// (type 1, deprecated authentication information); `c:` a capability parameter (type 2) with
+// its capabilities separated by `,`: `m` multiprotocol IPv4 unicast, `r` route refresh, `a<v>` the
+// 4-octet-AS capability with value v; `-` no optional parameter at all.
+func c07OpenLayout(myas int, layout string, id string, hold int, version int) []byte {
+	var params []bgp.OptionParameterInterface
+	if layout != "-" {
+		for _, p := range strings.Split(layout, "|") {
+			if !strings.HasPrefix(p, "c:") {
+				params = append(params, &bgp.OptionParameterUnknown{ParamType: 1, ParamLen: 2, Value: []byte{0, 0}})
+				continue
+			}
+			var caps []bgp.ParameterCapabilityInterface
+			for _, c := range strings.Split(p[2:], ",") {
+				switch {
+				case c == "m":
+					caps = append(caps, bgp.NewCapMultiProtocol(bgp.RF_IPv4_UC))
+				case c == "r":
+					caps = append(caps, bgp.NewCapRouteRefresh())
+				case strings.HasPrefix(c, "a"):
+					var v uint32
+					fmt.Sscanf(c[1:], "%d", &v)
+					caps = append(caps, bgp.NewCapFourOctetASNumber(v))
+				}
+			}
+			params = append(params, bgp.NewOptionParameterCapability(caps))
+		}
 	}
-	caps = append(caps, bgp.NewCapRouteRefresh())
-	m, _ := bgp.NewBGPOpenMessage(uint16(myas), uint16(hold), netip.MustParseAddr(id),
-		[]bgp.OptionParameterInterface{bgp.NewOptionParameterCapability(caps)})
+	m, _ := bgp.NewBGPOpenMessage(uint16(myas), uint16(hold), netip.MustParseAddr(id), params)
 	m.Body.(*bgp.BGPOpen).Version = uint8(version)
 	b, _ := m.Serialize()
 	return b
+}
+
+// c07OpenWire: the usual layout, one capability parameter
+func c07OpenWire(myas int, hascap bool, capas int, id string, hold int, version int) []byte {
+	return c07OpenLayout(myas, c07Ev{as: capas, nocap: !hascap}.lay(), id, hold, version)
 }
 
 // c07MyAS is the My-AS field a well-behaved speaker of AS `as` sends (RFC 6793)
@@ -416,6 +442,7 @@ type c07Ev struct {
 	ver, as, id, hold int    // open / outgoing; as = value of the 4-octet-AS capability
 	myas              int    // … the 2-octet My-AS field
 	nocap             bool   // … OPEN without the 4-octet-AS capability
+	layout            string // … explicit layout of the optional parameters ("" = the usual single capability parameter)
 	n                 int    // update: prefixes, badheader: kind, tick: seconds
 }
 
@@ -431,22 +458,75 @@ func (e c07Ev) line() string {
 	return "ev " + e.kind
 }
 
-// wire renders the OPEN for the model: version, My-AS, capability present, its value, id, hold
-func (e c07Ev) wire() string {
-	hc := 1
-	if e.nocap {
-		hc = 0
+// lay is the layout of the optional parameters (see c07OpenLayout)
+func (e c07Ev) lay() string {
+	switch {
+	case e.layout != "":
+		return e.layout
+	case e.nocap:
+		return "c:m,r"
 	}
-	return fmt.Sprintf("%d %d %d %d %d %d", e.ver, e.myas, hc, e.as, e.id, e.hold)
+	return fmt.Sprintf("c:m,a%d,r", e.as)
 }
 
-// eff is the AS the OPEN announces per RFC 6793: the capability's value if there is one,
-// the My-AS field otherwise (restated here for the oracle, independent of model and code)
+// wire renders the OPEN for the model: version, My-AS, parameter layout, id, hold
+func (e c07Ev) wire() string {
+	return fmt.Sprintf("%d %d %s %d %d", e.ver, e.myas, e.lay(), e.id, e.hold)
+}
+
+// eff is the AS the OPEN announces per RFC 6793 / RFC 5492 — its SEMANTIC content: the value of
+// the 4-octet-AS capability if the OPEN carries one in ANY capability parameter, the My-AS
+// field otherwise (restated here for the oracle, independent of model and code; the generator
+// never repeats the capability with different values)
 func (e c07Ev) eff() int {
-	if e.nocap {
-		return e.myas
+	as := e.myas
+	for _, p := range strings.Split(e.lay(), "|") {
+		if strings.HasPrefix(p, "c:") {
+			for _, c := range strings.Split(p[2:], ",") {
+				if strings.HasPrefix(c, "a") {
+					fmt.Sscanf(c[1:], "%d", &as)
+				}
+			}
+		}
 	}
-	return e.as
+	return as
+}
+
+// c07GenLayout spreads the capabilities {multiprotocol, route refresh, 4-octet AS unless nocap}
+// over one to three capability parameters in a random order, sometimes repeats the 4-octet-AS
+// capability in another parameter and sometimes puts non-capability parameters around them
+func c07GenLayout(r *vRand, as int, nocap bool) string {
+	caps := []string{"m", "r"}
+	if !nocap {
+		caps = append(caps, fmt.Sprintf("a%d", as))
+	}
+	pm := r.perm(len(caps))
+	n := 1 + r.intn(3)
+	groups := make([][]string, n)
+	for i, k := range pm {
+		g := i % n
+		if r.chance(30) {
+			g = r.intn(n)
+		}
+		groups[g] = append(groups[g], caps[k])
+	}
+	if !nocap && r.chance(25) {
+		g := r.intn(n)
+		groups[g] = append(groups[g], fmt.Sprintf("a%d", as))
+	}
+	var ps []string
+	for _, g := range groups {
+		if r.chance(20) {
+			ps = append(ps, "u")
+		}
+		if len(g) > 0 {
+			ps = append(ps, "c:"+strings.Join(g, ","))
+		}
+	}
+	if r.chance(10) {
+		ps = append(ps, "u")
+	}
+	return strings.Join(ps, "|")
 }
 
 // c07OpenEv: OPEN of a well-behaved 4-octet capable speaker of AS `as`
@@ -455,7 +535,7 @@ func c07OpenEv(kind string, as, id, hold int) c07Ev {
 }
 
 func (e c07Ev) bytes() []byte {
-	return c07OpenWire(e.myas, !e.nocap, e.as, c07ID(e.id), e.hold, e.ver)
+	return c07OpenLayout(e.myas, e.lay(), c07ID(e.id), e.hold, e.ver)
 }
 
 func c07ID(id int) string {
@@ -543,6 +623,8 @@ type c07Obs struct {
 	fsm, admin int      // bgp.FSMState / adminState numbering; fsm = -1: peer gone
 	rib        int
 	global     int
+	peerAS     int // State.PeerAs, part of the answer in ESTABLISHED
+	peerType   string
 }
 
 func (ss *c07Sess) observe() c07Obs {
@@ -569,6 +651,8 @@ func (ss *c07Sess) observe() c07Obs {
 		}
 	}
 	ob := c07Obs{out: canon, st: st, reasons: ss.rec.lastReasons, rib: ss.ribCount(), global: ss.globalCount()}
+	pc := ss.peer.fsm.pConf.ReadOnly()
+	ob.peerAS, ob.peerType = int(pc.State.PeerAs), string(pc.State.PeerType)
 	se, ad, found := ss.listPeer()
 	if found {
 		ob.fsm, ob.admin = se-1, ad-1
@@ -583,7 +667,11 @@ func (ob c07Obs) String() string {
 	if ob.fsm < 0 {
 		f = "gone"
 	}
-	return fmt.Sprintf("out=[%s] st=[%s] fsm=%s admin=%d rib=%d", strings.Join(ob.out, " "), strings.Join(ob.st, " "), f, ob.admin, ob.rib)
+	peer := ""
+	if ob.fsm == 5 {
+		peer = fmt.Sprintf(" peer=%d", ob.peerAS)
+	}
+	return fmt.Sprintf("out=[%s] st=[%s] fsm=%s admin=%d rib=%d%s", strings.Join(ob.out, " "), strings.Join(ob.st, " "), f, ob.admin, ob.rib, peer)
 }
 
 // ---------------------------------------------------------------------------------------------
@@ -835,6 +923,10 @@ func c07GenOpen(r *vRand, cfg c07Cfg, kind string) c07Ev {
 	case r.chance(6):
 		e.myas = r.pick(int(cfg.localAS)&0xffff, 65002, 65003, bgp.AS_TRANS, int(cfg.peerAS)&0xffff)
 	}
+	// the sender's freedom of encoding: capabilities spread over several optional parameters
+	if r.chance(45) {
+		e.layout = c07GenLayout(r, e.as, e.nocap)
+	}
 	return e
 }
 
@@ -950,12 +1042,12 @@ func c07Scenario(t *testing.T, o *vOut, cfg c07Cfg, seed uint64, maxLen int, scr
 				chk := e
 				chk.kind = "open"
 				if _, bad := c07RfcNotif(3, chk, cfg, 0); bad {
-					e.nocap, e.myas = false, c07MyAS(e.as)
+					e.nocap, e.myas, e.layout = false, c07MyAS(e.as), ""
 				}
 			}
 			if (e.kind == "open" && before.fsm == 3) || e.kind == "outgoing" {
 				ibgp = e.eff() == int(cfg.localAS)
-				ss.remoteAS, ss.twoByte = e.eff(), e.nocap
+				ss.remoteAS, ss.twoByte, ss.lastOpen = e.eff(), e.nocap, e.wire()
 				hold = min(e.hold, cfg.hold)
 			}
 			tb := ss.rec.now()
@@ -971,6 +1063,24 @@ func c07Scenario(t *testing.T, o *vOut, cfg c07Cfg, seed uint64, maxLen int, scr
 			}
 			o.ask(after.String(), "%s", e.line())
 			or.check(e, before, tb, after, ss.rec.now())
+			if after.fsm == 5 && before.fsm != 5 {
+				// the peer's identity the session runs with is the OPEN's semantic content,
+				// however its capabilities were laid out
+				wantType := "external"
+				if ss.remoteAS == int(cfg.localAS) {
+					wantType = "internal"
+				}
+				if after.peerAS != ss.remoteAS {
+					or.fail("peer-identity-differs-from-open:peer-as", fmt.Sprintf("OPEN %s announces AS %d, State.PeerAs is %d", ss.lastOpen, ss.remoteAS, after.peerAS))
+				}
+				if after.peerType != wantType {
+					or.fail("peer-identity-differs-from-open:peer-type", fmt.Sprintf("OPEN %s announces AS %d (local AS %d), peer type is %q", ss.lastOpen, ss.remoteAS, cfg.localAS, after.peerType))
+				}
+				o.stat("peer_identity_checked_"+wantType, 1)
+				if strings.Contains(ss.lastOpen, "|") {
+					o.stat("established_from_spread_open", 1)
+				}
+			}
 			if after.fsm == 4 && before.fsm != 4 {
 				// the connection has just become the session's: the OPEN recorded for it must
 				// be one RFC 4271 lets us accept and the timers must come from it
@@ -983,10 +1093,8 @@ func c07Scenario(t *testing.T, o *vOut, cfg c07Cfg, seed uint64, maxLen int, scr
 					or.fail("session-from-unvalidated-open:"+path, "OPENCONFIRM without a recorded OPEN")
 				} else {
 					b := used.Body.(*bgp.BGPOpen)
-					ue := c07Ev{kind: "open", ver: int(b.Version), myas: int(b.MyAS), nocap: true, id: c07IDNum(b.ID.String()), hold: int(b.HoldTime)}
-					if as := getASN(b); as != uint32(b.MyAS) || !e.nocap {
-						ue.nocap, ue.as = e.nocap, e.as // capability as sent; the AS is judged by the oracle's own rule
-					}
+					ue := e // the OPEN as sent; what the daemon recorded must be that one
+					ue.kind, ue.hold, ue.id, ue.ver = "open", int(b.HoldTime), c07IDNum(b.ID.String()), int(b.Version)
 					if sub, bad := c07RfcNotif(3, ue, cfg, 0); bad || ue.hold != e.hold || ue.id != e.id {
 						or.fail("session-from-unvalidated-open:"+path, fmt.Sprintf("session negotiated from OPEN %+v (sent %s; RFC verdict %q)", ue, e.wire(), sub))
 					}
@@ -1179,6 +1287,24 @@ func c07Direct(t *testing.T, o *vOut, r *vRand) {
 		}
 		return "as2"
 	}
+	// … and the parameter layout on top: returns whether the 4-octet-AS capability sits in a
+	// capability parameter that is not the first optional parameter
+	spread := func(e *c07Ev) string {
+		if !r.chance(55) {
+			return ""
+		}
+		e.layout = c07GenLayout(r, e.as, e.nocap)
+		ps := strings.Split(e.layout, "|")
+		for i, p := range ps {
+			if strings.Contains(p, "a") && strings.HasPrefix(p, "c:") {
+				if i > 0 {
+					return "+as4-in-later-param"
+				}
+				break
+			}
+		}
+		return "+spread"
+	}
 	for i := 0; i < n; i++ {
 		lid, rid := ids[r.intn(len(ids))], ids[r.intn(len(ids))]
 		las, ras := ass[r.intn(len(ass))], ass[r.intn(len(ass))]
@@ -1190,16 +1316,13 @@ func c07Direct(t *testing.T, o *vOut, r *vRand) {
 		}
 		e := c07Ev{ver: 4, as: ras, id: rid, hold: 90}
 		kind := wire(&e)
+		kind += spread(&e)
 		g := &oc.Global{Config: oc.GlobalConfig{As: uint32(las), RouterId: netip.MustParseAddr(c07ID(lid))}}
 		nb := &oc.Neighbor{Config: oc.NeighborConfig{LocalAs: uint32(las), PeerAs: uint32(ras), NeighborAddress: netip.MustParseAddr(c07PeerAddr)}}
 		f := newFSM(g, nb, bgp.BGP_FSM_IDLE, slog.Default())
 		m, _ := bgp.ParseBGPMessage(e.bytes())
 		got := f.isDominant(m.Body.(*bgp.BGPOpen))
-		hc := 1
-		if e.nocap {
-			hc = 0
-		}
-		o.ask(map[bool]string{true: "1", false: "0"}[got], "dom %d %d %d %d %d %d", lid, las, rid, e.myas, hc, e.as)
+		o.ask(map[bool]string{true: "1", false: "0"}[got], "dom %d %d %d %d %s", lid, las, rid, e.myas, e.lay())
 		// RFC 4271 6.8 + RFC 6286 2.3: the connection initiated by the speaker with the higher
 		// identifier survives, on equal identifiers the higher AS
 		want := uint64(lid)<<32|uint64(las) > uint64(rid)<<32|uint64(e.eff())
@@ -1223,6 +1346,7 @@ func c07Direct(t *testing.T, o *vOut, r *vRand) {
 		if kind == "myas-differs" && pas != 0 && r.chance(50) {
 			e.myas = c07MyAS(pas) // the field alone would satisfy the expected AS, the capability does not
 		}
+		kind += spread(&e)
 		m, _ := bgp.ParseBGPMessage(e.bytes())
 		_, err := bgp.ValidateOpenMsg(m.Body.(*bgp.BGPOpen), uint32(pas), uint32(las), netip.MustParseAddr(c07ID(lid)))
 		got := "ok"
@@ -1507,9 +1631,10 @@ func c07Collision(t *testing.T, o *vOut, cfg c07Cfg, path string, inc, out c07Ev
 		o.ask(got, "collide %s %d %d %d %s %s", path, cfg.localAS, c07IDNum(cfg.localID), cfg.peerAS, inc.wire(), out.wire())
 		detail := map[string]any{"cfg": fmt.Sprintf("%+v", cfg), "path": path, "incoming-open": inc.wire(), "outgoing-open": out.wire(),
 			"what": fmt.Sprintf("daemon wrote [%s]; state %v; session OPEN hold=%v; negotiated hold %d", sent, st, got, negHold)}
-		incBad, incIsBad := c07RfcNotif(3, c07Ev{kind: "open", ver: inc.ver, as: inc.as, myas: inc.myas, nocap: inc.nocap, id: inc.id, hold: inc.hold}, cfg, 0)
+		asOpen := func(e c07Ev) c07Ev { e.kind = "open"; return e }
+		incBad, incIsBad := c07RfcNotif(3, asOpen(inc), cfg, 0)
 		if usedEv != nil {
-			if _, bad := c07RfcNotif(3, c07Ev{kind: "open", ver: usedEv.ver, as: usedEv.as, myas: usedEv.myas, nocap: usedEv.nocap, id: usedEv.id, hold: usedEv.hold}, cfg, 0); bad {
+			if _, bad := c07RfcNotif(3, asOpen(*usedEv), cfg, 0); bad {
 				o.fail("session-from-unvalidated-open:collision-"+path, detail)
 			}
 			if want := min(usedEv.hold, cfg.hold); negHold != want || (negHold != 0 && negHold < 3) {
@@ -1544,7 +1669,7 @@ func c07Collisions(t *testing.T, o *vOut) {
 	local := c07IDNum("1.1.1.1")
 	for _, path := range []string{"incoming-first", "outgoing-first", "both-ready", "both-ready"} {
 		for _, rid := range []int{c07IDNum("2.2.2.2"), c07IDNum("1.1.1.0")} { // remote wins / local wins
-			for kind := 0; kind < 8; kind++ {
+			for kind := 0; kind < 11; kind++ {
 				cfg := c07Cfg{localAS: 65001, peerAS: 65002, localID: "1.1.1.1", hold: 90, idleAfterReset: 30}
 				out := c07OpenEv("outgoing", 65002, rid, 90)
 				inc := c07OpenEv("open", 65002, rid, 30)
@@ -1566,6 +1691,22 @@ func c07Collisions(t *testing.T, o *vOut) {
 					inc = c07OpenEv("open", 70000, local, 30)
 				case 7: // acceptable, hold time 0 on the accepted connection
 					inc.hold = 0
+				case 8: // EQUAL identifiers (fine for eBGP, RFC 6286): the AS decides; the peer is in a
+					// 4-octet AS (My-AS = AS_TRANS) and its 4-octet-AS capability sits in a later parameter
+					cfg.peerAS = 70002
+					out = c07OpenEv("outgoing", 70002, local, 90)
+					inc = c07OpenEv("open", 70002, local, 30)
+					out.layout, inc.layout = "c:m|c:r,a70002", "u|c:m,r|c:a70002"
+					if rid != c07IDNum("2.2.2.2") { // second round: other layouts, capability repeated
+						out.layout, inc.layout = "c:r|u|c:a70002|c:m,a70002", "c:m|c:a70002,r"
+					}
+				case 9: // equal identifiers, WE are in the 4-octet AS, the peer's AS is lower: local wins
+					cfg.localAS = 70000
+					out = c07OpenEv("outgoing", 65002, local, 90)
+					inc = c07OpenEv("open", 65002, local, 30)
+					out.layout, inc.layout = "c:m|c:a65002|c:r", "c:r,m|u|c:a65002"
+				case 10: // different identifiers, capabilities spread: the identifier decides as before
+					out.layout, inc.layout = "u|c:r|c:m,a65002", "c:m|c:r|c:a65002"
 				}
 				c07Collision(t, o, cfg, path, inc, out)
 			}
